@@ -20,13 +20,20 @@ Import ListNotations.
 
 (* ---- the frequency arithmetic ---- *)
 (* a learned phrase never gets a lower frequency, and a higher one below the cap *)
-Theorem C08_frequency_never_lowered : forall f m u : N, (f <= m)%N -> (m < 4000000000)%N -> estimate f f m = Ok u ->
+Theorem C08_frequency_never_lowered : forall f m u : N, (f <= m)%N -> estimate f f m = Ok u ->
   (f <= MAX_USER_FREQ)%N -> (f <= u)%N /\ ((f < MAX_USER_FREQ)%N -> (f < u)%N) /\ (u <= MAX_USER_FREQ)%N.
 Proof. exact estimate_raises. Qed.
 Print Assumptions C08_frequency_never_lowered.
 
+(* the pinned code in a release build: the wrapping addition LOWERED the frequency (4294967290 became 4); outside
+   the property's quantifier (frequencies below 1,000,000) but inside its statement "not lower than before" *)
+Theorem C08_wrapping_addition_lowered_the_frequency_pinned_refuted :
+  exists f m : N, (f <= m)%N /\ (m < 4294967296)%N /\ (estimate_pinned_release f f m < f)%N.
+Proof. exists 4294967290%N, 4294967295%N. vm_compute. repeat split; intros; discriminate. Qed.
+Print Assumptions C08_wrapping_addition_lowered_the_frequency_pinned_refuted.
+
 (* one repetition of "type, choose X, commit": X at frequency f, best other homophone at m *)
-Theorem C08_one_repetition : forall m f : N, (f <= N.max m f)%N -> (N.max m f < 4000000000)%N ->
+Theorem C08_one_repetition : forall m f : N, (f <= N.max m f)%N ->
   estimate f f (N.max m f) = Ok (learn_step m f).
 Proof. exact learn_step_is_estimate. Qed.
 Print Assumptions C08_one_repetition.
@@ -70,7 +77,6 @@ Proof. exact single_word_run_is_learned. Qed.
    phrase's frequency before (and higher below the cap); 0 counts as "before" for a new phrase *)
 Theorem C08_learning_raises_the_frequency : forall (s : shared D SY) k t s' ok p ps,
   length k = length t -> do_lookup dops (dict s) false k = p :: ps ->
-  (forall q, In q (p :: ps) -> (snd q < 4000000000)%N) ->
   learn_phrase dops s k t = Ok (s', ok) ->
   let pf := match find (fun q => text_eqb (fst q) t) (p :: ps) with Some q => snd q | None => 0%N end in
   exists uf, dict s' = do_update dops (dict s) k t pf uf (lifetime s) /\ ok = true /\
